@@ -97,11 +97,23 @@ def keytag_unit(odd_is_known):
             pass
         key = SObj(_Key, dict(params=SObj(_Params, dict(modulus=SInt(modulus)))))
         o = SObj(DnsRecordDnskey, dict(flags=[], algorithm=alg, key=key, protocol=DnsSecProtocol.V3))
+        import attr as _attr
+        for a in _attr.fields(DnsRecordDnskey):              # fields the constructor fills with a default (none today)
+            if a.name not in o.f and a.default is not _attr.NOTHING and not isinstance(a.default, _attr.Factory):
+                o.f[a.name] = a.default
         I.CONTRACTS[DnsRecordDnskey.compose] = lambda self: rdata.copy('bytearray')
+        before = dict(o.f)
         try:
-            r = I.call(DnsRecordDnskey.key_tag.fget, [o], {})
+            out = vc.outcome_of(lambda: I.call(DnsRecordDnskey.key_tag.fget, [o], {}))
         finally:
             I.CONTRACTS.pop(DnsRecordDnskey.compose, None)
+        if out.kind != 'ret':
+            e1.record_path_fact(P, 'key_tag returns a value (raised %s)' % out.value.cls.__name__, False)
+            return
+        r = out.value
+        # the observer is pure: reading the key tag writes nothing to the record (no cached tag that could go stale)
+        e1.record_path_fact(P, 'key_tag leaves the record untouched (same attributes, same values)',
+                            set(o.f) == set(before) and all(o.f[k] is before[k] for k in before))
         r = ops.as_int(r)
         is_md5 = idx == members.index(DnsSecAlgorithm.RSAMD5)
         # definition instances needed after the loop: the trailing octet of an odd-length rdata
@@ -132,6 +144,22 @@ def _rsa_dnskey(exponent, modulus, alg=DnsSecAlgorithm.RSASHA256):
 
 
 def keytag_native(k, only_even=False):
+    state = dict(vars(k))
+    first = k.key_tag
+    if vars(k) != state:
+        return dict(reproduced=True, call='%r.key_tag' % (k,), expected='the record is not modified by reading its key tag',
+                    observed='attributes after the call: %r' % ({a: v for a, v in vars(k).items() if state.get(a, None) is not v},), key='observer writes')
+    # the tag follows an edit of the record (nothing cached)
+    try:
+        edited = type(k)(flags=list(k.flags) + [f for f in DnsSecFlag if f not in k.flags][:1], algorithm=k.algorithm, key=k.key, protocol=k.protocol)
+        flags_before = list(k.flags)
+        k.flags = list(edited.flags)
+        second = k.key_tag
+        k.flags = flags_before
+        if second != edited.key_tag:
+            return dict(reproduced=True, call='%r.key_tag, then flags edited, then key_tag' % (k,), expected=edited.key_tag, observed=second, key='stale tag')
+    except Exception:
+        pass
     rdata = bytes(k.compose())
     if only_even and len(rdata) % 2:
         return dict(reproduced=False)
@@ -309,11 +337,15 @@ ROUNDTRIP = ('DnsRecordDs', 'DnsRecordTxt', 'DnsRecordMx', 'DnsRecordRrsig', 'Dn
 COMPOSE_ONLY = ()
 
 
+def keytag_full_unit(name='key_tag/rfc4034-appendix-B'):
+    odd_known = listed(KF_ODD)
+    return Unit(name, keytag_unit(odd_known), replay=keytag_replay(odd_known), search=keytag_search(odd_known),
+                clause='key tag', functions=['DnsRecordDnskey.key_tag'])
+
+
 def units(tier, seed):
     from checks import k6family, foundation
-    odd_known = listed(KF_ODD)
-    out = [Unit('key_tag/rfc4034-appendix-B', keytag_unit(odd_known), replay=keytag_replay(odd_known), search=keytag_search(odd_known),
-                clause='key tag', functions=['DnsRecordDnskey.key_tag'])]
+    out = [keytag_full_unit()]
     by_name = {c.__name__: c for c in e1.binary_classes()}
     for n in ROUNDTRIP:
         c = by_name[n]
